@@ -114,21 +114,37 @@ def run(ctx):
         cz = Canon(f)
         pn = [p["n"] for p in f.params]
         cap = ("param", pn.index("dst_capacity"), "size_t")
+        def verdict(node_rhs, want):
+            """'ok' / 'bad' (another parameter or a constant: a witness) / 'unknown' (a shape the rule does not follow)"""
+            t = _nocast(cz(node_rhs))
+            if t == want:
+                return "ok"
+            if isinstance(t, tuple) and t and t[0] == "param" or node_rhs.cv is not None:
+                return "bad"
+            return "unknown"
+        vs = []
         if lib is None:
             sets = [a for a in f.body.walk() if is_assign(a) and a.c[0].strip().k == "MemberExpr"
                     and a.c[0].strip().name == "avail_out"]
-            ok = len(sets) == 1 and _nocast(cz(sets[0].c[1])) == cap
             outs = [a for a in f.body.walk() if is_assign(a) and a.c[0].strip().k == "MemberExpr"
                     and a.c[0].strip().name == "next_out"]
-            ok = ok and len(outs) == 1 and _nocast(cz(outs[0].c[1])) == ("param", pn.index("dst"), "uint8_t *")
+            vs = [verdict(a.c[1], cap) for a in sets] + [verdict(a.c[1], ("param", pn.index("dst"), "uint8_t *")) for a in outs]
+            if len(sets) != 1 or len(outs) != 1:
+                vs.append("unknown")
         else:
             cs = f.calls(lib)
-            ok = bool(cs) and all(_nocast(cz(c.args()[ai])) == cap for c in cs)
+            vs = [verdict(c.args()[ai], cap) for c in cs] or ["unknown"]
             for alt in ("ZSTD_decompress",):
                 for c in f.calls(alt):
-                    ok = ok and _nocast(cz(c.args()[1])) == cap
-        ctx.ob("R5.agree", "wrapper-capacity|%s:%s" % (file_, fname), P.where(f.body),
-               "%s gives the library exactly dst / dst_capacity as its output window" % fname, ok)
+                    vs.append(verdict(c.args()[1], cap))
+        key_ = "wrapper-capacity|%s:%s" % (file_, fname)
+        what_ = "%s gives the library exactly dst / dst_capacity as its output window" % fname
+        if "bad" in vs:
+            ctx.bad("R5.agree", key_, P.where(f.body), what_, "the output window is set from another parameter or a constant")
+        elif "unknown" in vs:
+            ctx.inconclusive("R5.agree", key_, P.where(f.body), what_, "the output window is set through a shape the rule does not follow")
+        else:
+            ctx.ok("R5.agree", key_, P.where(f.body), what_)
 
     # ---- the gzip bound is zlib's compressBound(): its guarantee is stated for the default deflate
     # parameters (memLevel 8, 32K window); a stream opened with a smaller memLevel emits more stored
@@ -245,15 +261,103 @@ def offset_width_rule(ctx):
         ctx.ob("R5.spec", key, P.where(n),
                "%s accepts match distances up to %d, which fit the 2 offset bytes it emits (<= 65535)" % (fname, K),
                K <= 65535, "K = %d" % K)
-    # two-byte emission really is two bytes: stores of (offset & 0xFF) and (offset >> 8)
-    for file_, fname in ((SN, "snappy_emit_copy"), (LZ, "carquet_lz4_compress")):
-        f = P.fn(fname, file_)
-        lo = [a for a in f.body.walk() if is_assign(a) and "offset" in src(a.c[1]) and "255" in src(a.c[1])]
-        hi = [a for a in f.body.walk() if is_assign(a) and "offset" in src(a.c[1]) and ">> 8" in src(a.c[1])]
-        ctx.ob("R5.spec", "offset-bytes|%s:%s" % (file_, fname), P.where(f.body),
-               "%s writes the offset as low byte and (offset >> 8): a 16-bit field" % fname,
-               bool(lo) and bool(hi) and len(lo) == len([h for h in hi if "<< 5" not in src(h.c[1])]) or (bool(lo) and bool(hi)))
+    _snappy_elements(ctx)
 
+
+def _snappy_elements(ctx):
+    """snappy_emit_copy / snappy_emit_literal executed abstractly per (offset, length) / length: the bytes they
+    store are decoded with the Snappy format's element definitions and must describe exactly the copy / the
+    literal run they were asked for."""
+    from ..rules import sem
+    from ..rules.skeleton import Ptr, U
+    P = ctx.P
+    ec = P.fn("snappy_emit_copy", SN)
+    key = "copy-elements|%s:snappy_emit_copy" % SN
+    what = ("the elements snappy_emit_copy stores decode (Snappy format: copy-1 = 4..11 bytes at an 11-bit offset, copy-2 = 1..64 bytes "
+            "at a 16-bit offset) to copies of the requested offset whose lengths add up to the requested length (abstract execution)")
+    pn = [p["n"] for p in ec.params]
+    bad = None
+    nsc = 0
+    try:
+        for offset in (1, 255, 256, 2047, 2048, 2049, 32768, 65535):
+            for ln in (4, 5, 11, 12, 13, 59, 60, 63, 64, 65, 66, 67, 68, 69, 70, 127, 128, 131, 132, 200):
+                nsc += 1
+                args = []
+                for p in ec.params:
+                    args.append(Ptr("out", 0, 1) if "*" in p["t"] else None)
+                ints = [i for i, p in enumerate(ec.params) if "*" not in p["t"]]
+                if len(ints) != 2 or len(ec.params) != 3:
+                    raise AnalysisBroken("snappy_emit_copy does not take (output, offset, length)")
+                oi = [i for i in ints if "off" in pn[i]] or ints[:1]
+                li = [i for i in ints if i != oi[0]]
+                args[oi[0]], args[li[0]] = offset, ln
+                ret, ev, heap = sem.run(P, ec, args, heap0={}, hooks={}, single=True, max_forks=4, budget=20000)
+                end = ret.off if isinstance(ret, Ptr) and ret.base == "out" else None
+                if not isinstance(end, int):
+                    bad = bad or "offset %d length %d: returns %s" % (offset, ln, ret)
+                    continue
+                pos, total = 0, 0
+                while pos < end:
+                    tag = heap.get(("out", pos))
+                    if not isinstance(tag, int):
+                        bad = bad or "offset %d length %d: byte %d is not written" % (offset, ln, pos)
+                        break
+                    tag &= 0xFF
+                    if tag & 3 == 1:
+                        l_, o_ = 4 + ((tag >> 2) & 7), ((tag >> 5) << 8) | (heap.get(("out", pos + 1), 0) & 0xFF)
+                        pos += 2
+                    elif tag & 3 == 2:
+                        l_, o_ = 1 + (tag >> 2), (heap.get(("out", pos + 1), 0) & 0xFF) | ((heap.get(("out", pos + 2), 0) & 0xFF) << 8)
+                        pos += 3
+                    else:
+                        bad = bad or "offset %d length %d: element tag %#x is not a copy-1 / copy-2 element" % (offset, ln, tag)
+                        break
+                    if o_ != offset:
+                        bad = bad or "offset %d length %d: an element decodes to offset %d" % (offset, ln, o_)
+                    total += l_
+                else:
+                    if total != ln:
+                        bad = bad or "offset %d length %d: the elements copy %d bytes" % (offset, ln, total)
+    except sem.Inconclusive as ex:
+        ctx.inconclusive("R5.spec", key, P.where(ec.body), what, str(ex))
+        bad = False
+    if bad is not False:
+        ctx.ob("R5.spec", key, P.where(ec.body), what, bad is None, bad or "")
+    ctx.count("snappy_copy_scenarios", nsc)
+    el = P.fn("snappy_emit_literal", SN)
+    key = "literal-elements|%s:snappy_emit_literal" % SN
+    what = ("the literal header snappy_emit_literal stores decodes (Snappy format: lengths 1..60 in the tag, 61..2^32 in 1..4 extra "
+            "little-endian bytes) to the requested length, and the literal bytes follow it (abstract execution)")
+    bad = None
+    try:
+        for ln in (1, 2, 59, 60, 61, 255, 256, 257, 65535, 65536, 65537, 16777216, 16777217):
+            args = []
+            ptrs = [i for i, p in enumerate(el.params) if "*" in p["t"]]
+            if len(el.params) != 3 or len(ptrs) != 2:
+                raise AnalysisBroken("snappy_emit_literal does not take (output, literal, length)")
+            outi = [i for i in ptrs if "const" not in el.params[i]["t"]][:1] or ptrs[:1]
+            for i, p in enumerate(el.params):
+                args.append(Ptr("out", 0, 1) if i == outi[0] else Ptr("lit", 0, 1) if "*" in p["t"] else ln)
+            copies = []
+            ret, ev, heap = sem.run(P, el, args, heap0={}, hooks={"memcpy": lambda ev, a, it: copies.append((a[0].off if isinstance(a[0], Ptr) else a[0], a[2])) or a[0]},
+                                    single=True, max_forks=4, budget=20000, on_start=lambda: copies.clear())
+            tag = heap.get(("out", 0))
+            if not isinstance(tag, int) or tag & 3 != 0:
+                bad = bad or "length %d: tag %s is not a literal tag" % (ln, tag)
+                continue
+            k = (tag & 0xFF) >> 2
+            if k < 60:
+                dl, hdr = k + 1, 1
+            else:
+                nb = k - 59
+                dl = 1 + sum((heap.get(("out", 1 + i), 0) & 0xFF) << (8 * i) for i in range(nb))
+                hdr = 1 + nb
+            if dl != ln or copies != [(hdr, ln)] or not (isinstance(ret, Ptr) and ret.off == hdr + ln):
+                bad = bad or "length %d: header decodes to %d (%d header bytes), literal copied %s, returns %s" % (ln, dl, hdr, copies, ret)
+    except sem.Inconclusive as ex:
+        ctx.inconclusive("R5.spec", key, P.where(el.body), what, str(ex))
+        return
+    ctx.ob("R5.spec", key, P.where(el.body), what, bad is None, bad or "")
 
 
 def _nocast(t):
